@@ -6,4 +6,4 @@ Extraction "../ocaml/c04/model.ml" util_add util_mul util_divmod N.ltb N.eqb
   process_step step_skeleton set_fast_apply validate_update wf_update ranges_overlap
   persist_update image0 last_durable covers_code covers update_covers
   trace_step trace_run trace_ok tstate0 trace_image project_all crash durable
-  is_free_order_message engine_unused_z.
+  is_free_order_message engine_unused_z odsm_run odsm_ok.
